@@ -69,8 +69,9 @@ DEFAULT_SHADOWS = {"int": sym_int, "float": sym_float, "bool": sym_bool}
 
 
 class SymWorld:
-    def __init__(self, overrides=None, shadows=None, transformer=None, per_module_globals=None, repo=None):
+    def __init__(self, overrides=None, shadows=None, transformer=None, per_module_globals=None, repo=None, decy=()):
         self.repo = repo or REPO
+        self.decy = set(decy)  # Cython modules to be translated by DeCy
         self.overrides = dict(overrides or {})
         self.shadows = dict(DEFAULT_SHADOWS)
         if shadows:
@@ -88,6 +89,9 @@ class SymWorld:
         p = os.path.join(self.repo, rel, "__init__.py")
         if os.path.exists(p):
             return p, True
+        p = os.path.join(self.repo, rel + ".pyx")
+        if os.path.exists(p) and name in self.decy:
+            return p, False
         return None, False
 
     def _import(self, name, globals=None, locals=None, fromlist=(), level=0):
@@ -138,8 +142,16 @@ class SymWorld:
             raise ImportError("symbolic world: no pure-Python source for %s (add an override/model)" % name)
         if "." in name:
             self.load(name.rsplit(".", 1)[0])
-        src = open(path).read()
         self.sources.append(os.path.relpath(path, self.repo))
+        if path.endswith(".pyx"):
+            from vf.decy.emit import translate
+
+            pxds = [os.path.join(self.repo, "whatshap", f) for f in ("priorityqueue.pxd",)]
+            src, _ = translate(path, extra_pxd=pxds)
+            self.decy_sources = getattr(self, "decy_sources", {})
+            self.decy_sources[name] = src
+        else:
+            src = open(path).read()
         tree = ast.parse(src, path)
         if self.transformer is not None:
             tree = self.transformer(name, tree)
